@@ -632,6 +632,10 @@ theorem sim_step (tg : String → Nat) {st : St} {s : SSt} (hw : WFS st.ms) (hs 
     refine ⟨⟨hc, hl, ?_, hn⟩, rfl, ?_, hw⟩
     · simp [sStep, step, stepOut, dequeue, hq, hn]
     · simp [sStep, stepOut, opEvents, deqEvents, dequeue, hq, hn]
+  | tick t n order ok =>
+    refine ⟨⟨hc, hl, ?_, hn⟩, rfl, ?_, hw⟩
+    · simp [sStep, step, hq, hn]
+    · cases ok <;> simp [sStep, stepOut, opEvents, deqEvents, dequeue, hq, hn]
   | outcome sf =>
     obtain ⟨h1, h2, h3, h4⟩ := sim_remove tg sf.flatten st.ms s hc hl
     refine ⟨⟨?_, ?_, ?_, ?_⟩, rfl, rfl, ?_⟩
@@ -1056,8 +1060,12 @@ theorem deq_step (tg : String → Nat) (t n now lo : Nat) (order : List String) 
     exact ⟨this.2.1, this.2.2, rfl⟩
 
 /-- iteration orders of a history visit no key twice (a Go map range does not) -/
-def OrdersNodup (ops : List Op) : Prop :=
-  ∀ t n order, Op.deq t n order ∈ ops → order.Nodup
+def opOrder : Op → List String
+  | .deq _ _ o => o
+  | .tick _ _ o _ => o
+  | _ => []
+
+def OrdersNodup (ops : List Op) : Prop := ∀ op ∈ ops, (opOrder op).Nodup
 
 /-- total time a history lets pass -/
 def duration : List Op → Nat
@@ -1090,12 +1098,23 @@ theorem q_step (tg : String → Nat) (lo : Nat) (st : St) (op : Op) (hop : Order
     simp only [step, opEvents, List.append_nil, List.not_mem_nil, false_imp_iff, implies_true, and_true, addHook_eq]
     exact ⟨QInv_enqueue hlo _ hq, fun e he => Cover_enqueue hlo _ hq (hcov e he), hsep⟩
   | deq t n order =>
-    have hnd : order.Nodup := hop t n order (by simp)
+    have hnd : order.Nodup := hop (.deq t n order) (by simp)
     simpa [step, opEvents] using deq_step tg t n st.now lo order st.q hq hnd H hcov hsep
+  | tick t n order ok =>
+    have hnd : order.Nodup := hop (.tick t n order ok) (by simp)
+    obtain ⟨d1, d2, d3, d4⟩ := deq_step tg t n st.now lo order st.q hq hnd H hcov hsep
+    cases ok with
+    | true => exact ⟨by simpa [step] using d1, by simpa [step, opEvents] using d2, by simpa [opEvents] using d3,
+        by simpa [opEvents] using d4⟩
+    | false =>
+      -- the builder failed: the records are marked as dequeued, nothing is handed on
+      simp only [step, opEvents, List.append_nil, Bool.false_eq_true, if_false, List.not_mem_nil,
+        false_imp_iff, implies_true, and_true]
+      exact ⟨d1, fun e he => d2 e (List.mem_append_left _ he), hsep⟩
 
 theorem OrdersNodup_cons {op : Op} {ops : List Op} (h : OrdersNodup (op :: ops)) :
     OrdersNodup [op] ∧ OrdersNodup ops :=
-  ⟨fun t n o ho => h t n o (by simp at ho; simp [ho]), fun t n o ho => h t n o (by simp [ho])⟩
+  ⟨fun o ho => h o (by simp at ho; simp [ho]), fun o ho => h o (by simp [ho])⟩
 
 theorem handouts_sep_aux (tg : String → Nat) (lo : Nat) : ∀ (ops : List Op) (st : St) (H : List Ev),
     OrdersNodup ops → QInv lo st.now st.q → lo ≤ st.now →
@@ -1124,8 +1143,8 @@ theorem handouts_sep_aux (tg : String → Nat) (lo : Nat) : ∀ (ops : List Op) 
 
 /-- a checkable form of `OrdersNodup` -/
 theorem OrdersNodup_of_all (ops : List Op)
-    (h : ops.all (fun op => match op with | .deq _ _ o => decide o.Nodup | _ => true) = true) : OrdersNodup ops := by
-  intro t n order hm
+    (h : ops.all (fun op => decide (opOrder op).Nodup) = true) : OrdersNodup ops := by
+  intro op hm
   have := List.all_eq_true.mp h _ hm
   simpa using this
 
